@@ -300,11 +300,20 @@ PROPS["C09"] = {
           bounds="unwind 5; capacity 2, 1 outer operation (acquire, or release of an index held before the race) preempted before any of its atomic operations, up to 2 inner operations (one may run before)"),
         H("c09::sched::c09_s_uis_race_cap2_lock_deep", crate="hs", covers=2, timeout=7200, mem_gb=30, tiers=("thorough",),
           what="lock-if-last race, 1 outer / 3 inner operations, preemption also before cell accesses", bounds="unwind 7"),
-        H("c09::sched::c09_s_robust_recover_race", crate="hs", covers=2, timeout=2400, mem_gb=12, tiers=("quick",),
+        H("c09::sched::c09_s_robust_recover_vs_recover", crate="hs", covers=2, timeout=2400, mem_gb=12, tiers=("quick",),
           unwindset=_ROBUST_RACE,
-          what="robust set: recovery of a dead owner preempted at every atomic operation while a second recoverer and "
-               "a live owner (acquire/release) run in the gaps: exactly the dead owner's indices, each once; the live "
-               "owner keeps its indices", bounds="unwind 6; capacity 2, 2 inner operations"),
+          what="robust set: recovery of a dead owner preempted at every atomic operation while a second recoverer and an "
+               "acquiring live owner run up to 2 complete operations in the gaps: exactly the dead owner's indices, each "
+               "handed to exactly one recoverer, an index acquired in between is never taken away", bounds="unwind 5; capacity 2, dead owner holds 1-2 indices, 2 inner operations"),
+        H("c09::sched::c09_s_robust_recover_vs_owner", crate="hs", covers=2, timeout=2400, mem_gb=12, tiers=("quick",),
+          unwindset=_ROBUST_RACE,
+          what="same recovery while a live owner acquires / releases in the gaps: the live owner keeps what it acquires, "
+               "recovery never returns one of its indices, its releases are accepted",
+          bounds="unwind 5; capacity 2, 2 inner operations"),
+        H("c09::sched::c09_s_robust_recover_race", crate="hs", covers=2, timeout=7200, mem_gb=16, tiers=("thorough",),
+          unwindset=_ROBUST_RACE,
+          what="both kinds of inner operations mixed (second recoverer and live owner)",
+          bounds="unwind 5; capacity 2, 2 inner operations"),
         H("c09::sched::c09_s_robust_recover_race_deep", crate="hs", covers=2, timeout=7200, mem_gb=16, tiers=("thorough",),
           unwindset=_ROBUST_RACE,
           what="robust recovery race with 3 inner operations", bounds="unwind 6"),
